@@ -294,7 +294,11 @@ def check_skip(eng, fi, inner=None):
     else: return <inner generator>(headers)"""
     ok_skip = ok_apply = False
     bad = False
-    for p in cm.normal_paths(eng.I.run(fi)):
+    # one of these stages may be written as a call of its twin
+    I = eng.interp({U + '_check_host_authority_header',
+                    U + '_check_sent_host_authority_header',
+                    U + '_check_path_header'}, 2, fork_raises=False)
+    for p in cm.normal_paths(I.run(fi)):
         conds = [cm.show0(e.cond) for e in p.events if e.kind == 'assume']
         skip = any(c in ('hdr_validation_flags.is_response_header',
                          'hdr_validation_flags.is_trailer') for c in conds)
@@ -315,14 +319,33 @@ def check_skip(eng, fi, inner=None):
 
 def check_pseudo(ctx, eng):
     fi, paths = loop_paths(eng, U + '_reject_pseudo_header_fields')
-    PSEUDO = "utilities._custom_startswith(%s, b':', ':')" % N0
+    # "the name starts with a colon", however it is spelt: the helper of
+    # the pinned tree or str/bytes.startswith on the name directly
+    PSEUDO = {"utilities._custom_startswith(%s, b':', ':')" % N0,
+              ".startswith(%s, b':')" % N0, ".startswith(%s, ':')" % N0}
     seen = {'dup': False, 'seq': False, 'unknown': False}
     bad = []
     n = 0
+    flag_vars = set()
+    flag_set = []
+    adds = []
     for p in paths:
         conds, ys = body_facts(p)
         r = cm.explicit_raise(p)
-        is_pseudo = PSEUDO in conds
+        is_pseudo = bool(PSEUDO & set(conds))
+        not_pseudo = bool({'not ' + c for c in PSEUDO} & set(conds))
+        for c in conds:
+            if c.startswith('phi(') and c.endswith(')'):
+                flag_vars.add(c[4:-1])
+        if p.exit != 'raise':
+            if not_pseudo:
+                flag_set.append({k for k, v in p.state.env.items()
+                                 if v == T.C(True)})
+            elif is_pseudo:
+                adds.append([cm.show0(e.recv) for e in p.events
+                             if e.kind == 'call' and
+                             cm.ev_callee_names(e) & {'add'} and e.args and
+                             cm.show0(e.args[0]) == N0])
         if r is not None and r.in_loop:
             if not is_pseudo:
                 bad.append('a regular field is rejected (%s)' % conds)
@@ -333,7 +356,7 @@ def check_pseudo(ctx, eng):
                     lastc[2][0] != 'global' and \
                     _is_seen_set(fi, p, lastc[2]):
                 seen['dup'] = True
-            elif last in ('phi(seen_regular_header)',):
+            elif last.startswith('phi(') and last.endswith(')'):
                 seen['seq'] = True
             elif last == 'not (%s in _ALLOWED_PSEUDO_HEADER_FIELDS)' % N0:
                 seen['unknown'] = True
@@ -350,17 +373,13 @@ def check_pseudo(ctx, eng):
            '; '.join(sorted(set(bad))) or 'duplicate / after a regular field '
            '/ unknown pseudo-header => ProtocolError (seen %s)' % seen,
            node=fi.node)
-    # the set the name is added to is the one duplicates are tested against,
-    # the flag is set in the non-pseudo branch, the final check is called
-    src = ast.unparse(fi.node)
-    add_ok = 'seen_pseudo_header_fields.add(header[0])' in src
-    flag_ok = False
-    for nd in ast.walk(fi.node):
-        if isinstance(nd, ast.If) and '_custom_startswith' in ast.unparse(
-                nd.test):
-            flag_ok = any(isinstance(x, ast.Assign) and
-                          ast.unparse(x) == 'seen_regular_header = True'
-                          for x in nd.orelse)
+    # every accepted pseudo-header name is added to a set (the one the
+    # duplicate test reads: _is_seen_set above); every accepted regular field
+    # sets the flag that the ordering test reads; the block-type check is
+    # called at the end
+    add_ok = bool(adds) and all(a for a in adds)
+    flag_ok = bool(flag_set) and bool(flag_vars) and all(
+        flag_vars & fs for fs in flag_set)
     final = [p for p in eng.I.run(fi) if p.exit != 'raise' and
              cm.calls_to(p, '_check_pseudo_header_field_acceptability')]
     fin_ok = bool(final) and all(
